@@ -1,6 +1,6 @@
 SPECIFICATION Spec
 CONSTANTS
-  MaxH = 3
+  MaxH = 2
   MaxRestarts = 1
   FullNode = TRUE
   Cap = 2
